@@ -330,7 +330,7 @@ def run(prop, report, tier, seed):
         report.assume("comma = the 7-bit patterns 0011111 / 1100000; defined control symbols = K.28.0-7, K.23.7, "
                       "K.27.7, K.29.7, K.30.7 (other k=1 inputs are not judged)")
         report.assume("stream level: exhaustive G-mode over 2-5 symbol lane alphabets and 1-3 words; 4 words and the "
-                      "full alphabet only in recorded simulations (T-mode); StreamDecoder with >= 2 words T-mode only")
+                      "full alphabet only in recorded simulations (T-mode)")
         # compiled stepper vs reference evaluator on samples of exactly the steps the tables are made of
         rnd = random.Random(seed + 5)
         n = 0
